@@ -431,3 +431,15 @@ def block_documents():
                         node.add(key, kind, payload if kind != "repeated" else "SECOND=2")
                     root, path = wrap_in_parents(node)
                     yield f"{typ}.{key}:{kind}:v{vi}{'x2' if twice else ''}", root, path
+
+
+# documents in which one keyword occurs in two object kinds whose schemas define it differently (the printer must look the
+# keyword up per object type): text, and whether the second value is an expression / binding / enumerated word
+CROSS_TYPE_TEXTS = [
+    'MAP\n  LAYER\n    NAME "l"\n    TYPE POINT\n    GROUP "transport"\n    CLUSTER\n      MAXDISTANCE 20\n      GROUP ("[species]" = "oak")\n    END\n  END\nEND',
+    'MAP\n  LAYER\n    NAME "l"\n    TYPE POINT\n    FEATURE\n      POINTS\n        1 1\n      END\n      TEXT "hello"\n    END\n    CLASS\n      TEXT ("[name]" + "-" + "[code]")\n    END\n  END\nEND',
+    'MAP\n  LEGEND\n    POSITION UL\n  END\n  SCALEBAR\n    ALIGN CENTER\n    POSITION LR\n  END\n  LAYER\n    NAME "l"\n    TYPE POINT\n    CLASS\n      LABEL\n        POSITION [labelpos]\n        ALIGN [labelalign]\n      END\n    END\n  END\nEND',
+    'LAYER\n  NAME "l"\n  TYPE POINT\n  CLASS\n    STYLE\n      SIZE 8\n      ANGLE 30\n    END\n    LABEL\n      SIZE SMALL\n      ANGLE FOLLOW\n    END\n  END\nEND',
+    'LAYER\n  NAME "l"\n  TYPE POINT\n  CLASS\n    STYLE\n      SIZE [sz]\n      OFFSET 1 2\n    END\n    LABEL\n      SIZE LARGE\n      OFFSET [ox] [oy]\n    END\n  END\nEND',
+    'MAP\n  SIZE 400 300\n  LAYER\n    NAME "l"\n    TYPE POINT\n    CLASS\n      STYLE\n        SIZE 7.5\n      END\n      LABEL\n        SIZE TINY\n      END\n    END\n  END\n  SCALEBAR\n    SIZE 200 3\n  END\nEND',
+]
